@@ -367,16 +367,18 @@ class AppTracker(object):
         seq0 = int(conn.seq_message) if conn is not None else 0
         q0 = len(conn.outgoing_messages) if conn is not None else 0
         try:
+            # the retry mode is given as the enum or as a plain int (both documented), alternating
+            rv = RetryMode(int(retry)) if self.counter % 2 else int(retry)
             if side == "client":
                 if api == "send_guaranteed":
                     endpoint.udp.send_guaranteed(payload, cb)
                 else:
-                    endpoint.udp.send(payload, retry=int(retry), callback=cb)
+                    endpoint.udp.send(payload, retry=rv, callback=cb)
             else:
                 if api == "send_guaranteed":
                     endpoint.send_guaranteed(payload, cb)
                 else:
-                    endpoint.send(payload, retry=RetryMode(int(retry)), callback=cb)
+                    endpoint.send(payload, retry=rv, callback=cb)
         except Exception as ex:
             rec["refused"] = repr(ex)
             rec["queued_despite_raise"] = len(conn.outgoing_messages) - q0 if conn is not None else 0
